@@ -18,6 +18,10 @@
    CHILD-PARENT event; a seeded sample of cases, grouped by selector list, runs end to end on a running pipeline
    [split, keep_fields | remove_fields] with the documents as the elements of the split array.  The spec mutant
    ~M_AllDocumentKindsFiltered ("only regular events are filtered") must be rejected by TLC.
+   INSTANCES: for a seeded sample of selector lists, N >= 4 real plugin instances are started from ONE shared config
+   object (as the pipeline starts one plugin per processor) and run concurrently for a bounded time on their own
+   documents; every result is compared; the overlap achieved is reported.  The spec mutant ~M_BuffersPerInstance
+   ("instances share the backing arrays") must be rejected by TLC, the faithful two-instance model must pass.
 3. A difference is a violation record {plugin, kind, as_swap_delete_model, event, ...}; records matching a
    known finding are KNOWN-FINDING, everything else is a VIOLATION.
 """
@@ -87,12 +91,10 @@ def run(ctx):
 
     # end-to-end sample: cases that share the selector list become the elements of one split array
     e2e_path = os.path.join(ctx.scratch, "c18_e2e.ndjson")
-    groups = {}
-    for ln in cases[:40000]:
+    groups, wgroups = {}, {}
+    for ln in cases[:60000]:
         t = json.loads(ln)
-        if _has_junk(t[1]):
-            continue
-        groups.setdefault((t[0], json.dumps(t[2])), []).append(ln)
+        (wgroups if _has_junk(t[1]) else groups).setdefault((t[0], json.dumps(t[2])), []).append(ln)
     want_groups = 30 if ctx.tier == "quick" else 200
     picked = [g[:12] for g in sorted(groups.values(), key=len, reverse=True)[:4 * want_groups]]
     ctx.rng.shuffle(picked)
@@ -101,6 +103,21 @@ def run(ctx):
         for g in picked:
             f.write(json.dumps(g) + "\n")
 
+    # concurrent-instances sample: groups of >= 4 cases with one selector list (wide ones first: long collect phases)
+    stress_path = os.path.join(ctx.scratch, "c18_stress.ndjson")
+    n_stress = 3 if ctx.tier == "quick" else 10
+    stress = []
+    for pool in (wgroups, groups):
+        cand = [g[:8] for g in pool.values() if len(g) >= 4]
+        ctx.rng.shuffle(cand)
+        stress += cand[:n_stress]
+    if len(stress) < 2:
+        raise vlib.Infra("no groups for the concurrent-instances run")
+    with open(stress_path, "w") as f:
+        for g in stress:
+            f.write(json.dumps(g) + "\n")
+    stress_ms = 350 if ctx.tier == "quick" else 600
+
     recs = []
     per_plugin = {}
     for pkg in PKGS:
@@ -108,7 +125,8 @@ def run(ctx):
         binary = ctx.go_test_build(pkg)
         out = os.path.join(ctx.scratch, "c18_out_%s.json" % name)
         rc, txt = ctx.run_bin(binary, "^TestVerifC18$",
-                              env={"VERIF_CASES": path, "VERIF_OUT": out, "VERIF_E2E": e2e_path, "LOG_LEVEL": "error"}, timeout=3000)
+                              env={"VERIF_CASES": path, "VERIF_OUT": out, "VERIF_E2E": e2e_path, "VERIF_STRESS": stress_path,
+                                   "VERIF_STRESS_MS": stress_ms, "LOG_LEVEL": "error"}, timeout=3000)
         if rc != 0 or not os.path.exists(out):
             raise vlib.Infra("C18 harness (%s) failed rc=%s:\n%s" % (name, rc, txt[-3000:]))
         r = json.load(open(out))
@@ -118,9 +136,12 @@ def run(ctx):
         if r["predictor_disagrees"]:
             raise vlib.Infra("harness %s: order predictor disagrees with the specification's transcription on %d cases" %
                              (name, r["predictor_disagrees"]))
+        if r["stress_groups"] != len(stress):
+            raise vlib.Infra("harness %s ran %d of %d concurrent groups" % (name, r["stress_groups"], len(stress)))
         if r["e2e_groups"] != len(picked):
             raise vlib.Infra("harness %s ran %d of %d end-to-end groups" % (name, r["e2e_groups"], len(picked)))
-        per_plugin[name] = {k: r[k] for k in ("executed", "events", "wide_cases", "e2e_groups", "e2e_documents", "nontrivial", "reordering_predicted",
+        per_plugin[name] = {k: r[k] for k in ("executed", "events", "wide_cases", "e2e_groups", "e2e_documents", "stress_groups", "stress_instances",
+                                              "stress_do_calls", "stress_overlapping_do_calls", "nontrivial", "reordering_predicted",
                                               "mismatch_counts")}
         for m in r["mismatches"] or []:
             recs.append(m)
